@@ -30,6 +30,9 @@ CHECKS = {
  "C18": ("exploration", "recorded-answer oracle: what the live reader answered when B was the tip (recorded on a history-free node) vs CreateSnapshot(B) / CreateXMSnapshotReader(B) / tip readers for every (chain block, key) after every synchronised op of key-heavy histories with reorganisations and pending pool writes",
          "Runtime differential monitor over ~60k snapshot reads per quick run; held on what was explored.",
          "Trusted: the recording node runs the same xmodel live-read code (C01/C03 cover it independently).", "DESIGN.md §3 C18"),
+ "C13": ("exploration", "producer-vs-replica differential + pool-order oracle: pools of dependent / key-sharing / oversized / timer-triggering transactions; GetUnconfirmedTx sampled 8x per pool (producer<consumer, reader<overwriter); block packed as miner.packBlock does, VerifyBlock / IsValidTx, two replicas that never saw the pool (confirm+Walk, confirm+Play) vs producer (PlayForMiner): all observables equal",
+         "Runtime differential monitor over hundreds (quick) / thousands (thorough) of pools; held on what was explored; one timer-transaction defect is a known finding.",
+         "Trusted: the transcription of miner.packBlock's glue (simnode/miner.go, 40 lines; all ledger/state calls are the real ones); Go map iteration randomness is sampled, not enumerated.", "DESIGN.md §3 C13"),
 }
 NOT_YET = "check not built yet in this session (work in progress; see DESIGN.md for the planned monitor)"
 ALL = ["C%02d" % i for i in range(1, 21)]
